@@ -27,12 +27,15 @@ class QueryJudge:
     """Generic judge: implementation == specification on the property's observable, under every
     configuration; model == implementation (Tier-A correspondence)."""
 
-    def __init__(self, report, findings, pid, ordered=False, nontrivial=None, use_c05=True, tag=''):
+    def __init__(self, report, findings, pid, ordered=False, nontrivial=None, use_c05=True, tag='',
+                 check_tree=False, expected=None):
         self.report, self.pid, self.ordered = report, pid, ordered
         self.findings = {f['id']: f for f in findings.get('findings', []) if f.get('status', 'open') == 'open'}
         self.nontrivial = nontrivial
         self.use_c05 = use_c05
         self.tag = tag
+        self.check_tree = check_tree
+        self.expected = expected
 
     def known(self, fid):
         f = self.findings.get(fid)
@@ -57,6 +60,13 @@ class QueryJudge:
             model_obs = canon(model[1], case, self.ordered)
         else:
             model_obs = model
+        if self.expected is not None:
+            want = self.expected(case, res)
+        if self.check_tree and 'tree' in res and res['tree'] != drv['tree']:
+            # Tier A for the construction properties: the tree the library built vs the model's `build`
+            rep.corr_disagreements.append({'case': surface.case_sexp(case), 'model_tree': drv['tree'],
+                                           'impl_tree': res['tree']})
+            rep.count('tree_mismatch')
         if self.nontrivial is None or self.nontrivial(case, res):
             rep.nontrivial.add(surface.case_sexp({**case, 'id': 'x'}))
         rep.add_sample(sample_of(case))
@@ -120,7 +130,7 @@ def c01(report, rng, tier, findings):
                    "second evaluation; non-trivial = condition neither constantly true nor false on its dataset")
     judge = QueryJudge(report, findings, 'C01', ordered=True, nontrivial=nontrivial_filter)
     run_query_cases(report, cases, {'caching': (False, True), 'evals': 2, 'ordered': True}, judge)
-    return ['EqlModel.Props.C01'], [
+    return ['EqlModel.Props.C01', 'EqlModel.Props.C03'], [
         "every leaf of the condition mentions the variable (closed leaves are covered by correspondence only)",
         "primitives do not raise on the dataset (NoRaise)", "distinct objects in the domain"]
 
